@@ -23,6 +23,13 @@ C13_OPS = ['prefix_increment', 'prefix_decrement', 'postfix_increment', 'postfix
            'less_equal', 'greater_than', 'greater_equal', 'equality', 'inequality']
 
 PROPS = {
+    'C08': {
+        'title': 'Compilation is total: every input yields a result or a rendered diagnostic',
+        # roll-up: panic / overflow / bounds freedom of every function under contract (tag C08 in each unit)
+        'v_units': ['cond_chain', 'cond_parser', 'bindings', 'lexer_digits', 'token_stream', 'source_manager', 'layout'],
+        'k_groups': [],
+        'design_ref': 'DESIGN.md §3 C08',
+    },
     'C10': {
         'title': 'Lexing is lossless and numeric literals are exact',
         'v_units': ['lexer_digits', 'token_stream', 'source_manager'],
